@@ -70,11 +70,26 @@ pub struct Inj {
     pub n_ops: usize,
     /// the probe starts with a `drop` (replacement of an `if`, which consumed its condition)
     pub leading_drop: bool,
+    /// what the probe body is
+    pub probe: Probe,
+}
+
+#[derive(Clone, Copy, Debug, PartialEq, Eq)]
+pub enum Probe {
+    /// (i32.const <unique>; drop)+
+    Marker,
+    /// i32.const <uid>; call 0   (function 0 = imported host.probe)
+    Host,
+    /// Host followed by the original instruction of the site (neutral alternate)
+    HostThenOrig,
 }
 
 pub const MARK_BASE: u32 = 0x5000_0000;
 
 pub fn probe_ops_for(inj: &Inj) -> Vec<O<'static>> {
+    if inj.probe != Probe::Marker {
+        return vec![O::I32Const { value: inj.uid as i32 }, O::Call { function_index: 0 }];
+    }
     let mut v = probe_ops(inj.uid, inj.n_ops);
     if inj.leading_drop {
         v.insert(0, O::Drop);
@@ -209,6 +224,12 @@ fn set_mode_at<'a, T: Instrumenter<'a>>(fm: &mut T, mode: Mode, loc: Location) {
 
 fn apply_one_module<'a>(m: &mut wirm::Module<'a>, inj: &Inj, ops: Vec<O<'static>>) {
     let loc = Location::Module { func_idx: FunctionID(inj.func), instr_idx: inj.at };
+    let mut ops: Vec<O<'a>> = ops.into_iter().map(|o| o as O<'a>).collect();
+    if inj.probe == Probe::HostThenOrig {
+        // neutral alternate: the probe followed by the instruction it replaces
+        let orig = m.functions.get(FunctionID(inj.func)).unwrap_local().body.instructions[inj.at].op.clone();
+        ops.push(orig);
+    }
     match inj.path {
         Path::Iter | Path::IterInjectAt => {
             let mut it = ModuleIterator::new(m, &vec![]);
@@ -521,6 +542,18 @@ pub fn branch_target_class(ops: &[SymOp], at: usize) -> &'static str {
     }
 }
 
+/// absolute targets of the branch at `at`: Some(open pc) per entry, None = function label
+pub fn branch_targets_abs(ops: &[SymOp], at: usize) -> Vec<Option<usize>> {
+    let st = structure(ops);
+    let mut chain = vec![];
+    let mut cur = st.parent[at];
+    while let Some(p) = cur {
+        chain.push(p);
+        cur = st.parent[p];
+    }
+    branch_depths(&ops[at]).into_iter().map(|d| chain.get(d as usize).cloned()).collect()
+}
+
 pub struct Lower {
     pub id: &'static str,
 }
@@ -632,7 +665,7 @@ impl Prop for Lower {
                     if mode == Mode::EmptyAlt && matches!(path, Path::IterInjectAt | Path::ModifierInjectAt) {
                         path = Path::Iter;
                     }
-                    plan.push(Inj { func, at, mode, path, uid, n_ops: rng.range(1, 2), leading_drop: false });
+                    plan.push(Inj { func, at, mode, path, uid, n_ops: rng.range(1, 2), leading_drop: false, probe: Probe::Marker });
                     uid += 1;
                 }
             }
@@ -673,7 +706,7 @@ impl Prop for Lower {
                             if is_if && mode == Mode::EmptyBlockAlt {
                                 empty_if = true;
                             }
-                            plan.push(Inj { func: nimp + f as u32, at: c, mode, path, uid, n_ops: 1, leading_drop: is_if && mode == Mode::BlockAlt });
+                            plan.push(Inj { func: nimp + f as u32, at: c, mode, path, uid, n_ops: 1, leading_drop: is_if && mode == Mode::BlockAlt, probe: Probe::Marker });
                             uid += 1;
                         }
                     }
@@ -684,7 +717,7 @@ impl Prop for Lower {
                             continue;
                         }
                         let mode = *rng.pick(&[Mode::Before, Mode::After]);
-                        plan.push(Inj { func: nimp + f as u32, at, mode, path: *rng.pick(&paths), uid, n_ops: 1, leading_drop: false });
+                        plan.push(Inj { func: nimp + f as u32, at, mode, path: *rng.pick(&paths), uid, n_ops: 1, leading_drop: false, probe: Probe::Marker });
                         uid += 1;
                     }
                 }
@@ -726,7 +759,7 @@ impl Prop for Lower {
                     if matches!(mode, Mode::EmptyBlockAlt | Mode::FuncEntry | Mode::FuncExit) && matches!(path, Path::IterInjectAt | Path::ModifierInjectAt) {
                         path = if rng.bool() { Path::Iter } else { Path::Modifier };
                     }
-                    plan.push(Inj { func: nimp + f as u32, at, mode, path, uid, n_ops: 1, leading_drop: false });
+                    plan.push(Inj { func: nimp + f as u32, at, mode, path, uid, n_ops: 1, leading_drop: false, probe: Probe::Marker });
                     uid += 1;
                 }
             }
@@ -769,7 +802,7 @@ pub fn plan_to_json(plan: &[Inj]) -> serde_json::Value {
     json!(plan
         .iter()
         .map(|i| json!({"func": i.func, "at": i.at, "mode": format!("{:?}", i.mode), "path": format!("{:?}", i.path), "uid": i.uid,
-                        "n_ops": i.n_ops, "leading_drop": i.leading_drop}))
+                        "n_ops": i.n_ops, "leading_drop": i.leading_drop, "probe": format!("{:?}", i.probe)}))
         .collect::<Vec<_>>())
 }
 pub fn plan_from_json(v: &serde_json::Value) -> Option<Vec<Inj>> {
@@ -783,6 +816,11 @@ pub fn plan_from_json(v: &serde_json::Value) -> Option<Vec<Inj>> {
             uid: e["uid"].as_u64()? as u32,
             n_ops: e["n_ops"].as_u64().unwrap_or(1) as usize,
             leading_drop: e["leading_drop"].as_bool().unwrap_or(false),
+            probe: match e["probe"].as_str() {
+                Some("Host") => Probe::Host,
+                Some("HostThenOrig") => Probe::HostThenOrig,
+                _ => Probe::Marker,
+            },
         });
     }
     Some(out)
